@@ -58,3 +58,21 @@ Proof. exact Nice.Stun.ErrorCodeProofs.find_error_decodes. Qed.
 
 Theorem C06_error_class_ignores_reserved_bits : forall b2 r, 0 <= b2 < 8 -> 0 <= r < 32 -> Z.land (b2 + 8 * r) 7 = b2.
 Proof. exact Nice.Stun.ErrorCodeProofs.error_class_ignores_reserved_bits. Qed.
+
+(** ... and conversely: every ERROR-CODE attribute of class 3..6 and number 0..99 is accepted with the RFC value, one that is too short or out
+    of range is INVALID, and NOT-FOUND means exactly that no such attribute is present *)
+Theorem C06_error_code_accepts_wellformed : forall c buf o l b2 b3,
+  find c buf A_ERROR_CODE = Ok (Some (o, l)) -> 4 <= l -> rd buf (o + 2) = Some b2 -> rd buf (o + 3) = Some b3 ->
+  3 <= Z.land b2 7 <= 6 -> b3 <= 99 ->
+  find_error c buf = Ok (FOk (Z.land b2 7 * 100 + b3)).
+Proof. exact Nice.Stun.ErrorCodeProofs.find_error_accepts. Qed.
+
+Theorem C06_error_code_rejects_malformed : forall c buf o l b2 b3,
+  find c buf A_ERROR_CODE = Ok (Some (o, l)) -> rd buf (o + 2) = Some b2 -> rd buf (o + 3) = Some b3 ->
+  (l < 4 \/ Z.land b2 7 < 3 \/ 6 < Z.land b2 7 \/ 99 < b3) ->
+  find_error c buf = Ok FInvalid.
+Proof. exact Nice.Stun.ErrorCodeProofs.find_error_rejects. Qed.
+
+Theorem C06_error_code_not_found_iff : forall c buf,
+  find_error c buf = Ok FNotFound <-> find c buf A_ERROR_CODE = Ok None.
+Proof. exact Nice.Stun.ErrorCodeProofs.find_error_not_found_iff. Qed.
